@@ -1,10 +1,903 @@
+/-
+  C35 — property theorems.
+-/
 import MitmVerif.Model.C35
+import MitmVerif.Model.C35_Spec
 namespace MitmVerif.Props.C35
 open MitmVerif MitmVerif.C35
+open MitmVerif.C35.Spec (keq)
 
-theorem copy_eq (fs : Fields) : copy fs = fs := by
+/-! ### key equivalence -/
+
+private theorem keq_iff (a b : Bytes) : keq a b = true ↔ asciiLower a = asciiLower b := by
+  simp [keq]
+
+private theorem keq_refl (a : Bytes) : keq a a = true := by simp [keq]
+
+private theorem keq_symm (a b : Bytes) : keq a b = keq b a := by
+  simp only [keq]
+  exact BEq.comm
+
+private theorem keq_trans {a b c : Bytes} (h1 : keq a b = true) (h2 : keq b c = true) : keq a c = true := by
+  rw [keq_iff] at *; exact h1.trans h2
+
+/-- the comparison `_kconv(field[0]) == key_kconv` of the code is `keq` -/
+private theorem kconv_beq (a b : Bytes) : (kconv a == kconv b) = keq a b := rfl
+
+private theorem kconv_bne (a b : Bytes) : (kconv a != kconv b) = !keq b a := by
+  rw [keq_symm]; rfl
+
+/-! ### concrete operation = abstract operation -/
+
+private theorem getAll_eq (fs : Fields) (k : Bytes) : C35.getAll fs k = Spec.getAll fs k := by
+  induction fs with
+  | nil => rfl
+  | cons f fs ih =>
+    simp only [C35.getAll, Spec.getAll, kconv_beq] at *
+    by_cases h : keq f.1 k = true <;> simp [h, ih]
+
+private theorem joinWith_cons (sep v : Bytes) (vs : List Bytes) :
+    joinWith sep (v :: vs) = v ++ vs.flatMap (fun w => sep ++ w) := by
+  induction vs generalizing v with
+  | nil => simp [joinWith]
+  | cons w vs ih => simp [joinWith, ih]
+
+private theorem reduce_eq (vs : List Bytes) : reduceValues vs = Spec.fold vs := by
+  cases vs with
+  | nil => rfl
+  | cons v vs => simp [reduceValues, Spec.fold, joinWith_cons]
+
+private theorem getItem_eq (fs : Fields) (k : Bytes) : C35.getItem fs k = Spec.lookup fs k := by
+  simp only [C35.getItem, Spec.lookup, getAll_eq, reduce_eq]
+  cases Spec.getAll fs k <;> simp
+
+private theorem getAll_nil_iff (fs : Fields) (k : Bytes) : Spec.getAll fs k = [] ↔ Spec.count fs k = 0 := by
+  simp [Spec.getAll, Spec.count]
+
+private theorem contains_eq (fs : Fields) (k : Bytes) : C35.contains fs k = (Spec.count fs k != 0) := by
+  simp only [C35.contains, getItem_eq, Spec.lookup]
+  have := getAll_nil_iff fs k
+  cases h : Spec.getAll fs k with
+  | nil => simp [this.mp h]
+  | cons v vs =>
+    have : Spec.count fs k ≠ 0 := fun e => by simp [this.mpr e] at h
+    simp [this]
+
+private theorem setAllLoop_eq (k : Bytes) (all : List Bytes) (fs : Fields) :
+    ∀ (i : Nat) (vs : List Bytes), vs = all.drop i →
+      (setAllLoop (kconv k) fs vs).1 = Spec.rewrite k all i fs ∧
+      (setAllLoop (kconv k) fs vs).2 = all.drop (i + Spec.count fs k) := by
+  induction fs with
+  | nil => intro i vs h; simp [setAllLoop, Spec.rewrite, Spec.count, h]
+  | cons f fs ih =>
+    intro i vs h
+    have hk : (kconv f.1 == kconv k) = keq f.1 k := rfl
+    by_cases hf : keq f.1 k = true
+    · have hc : Spec.count (f :: fs) k = Spec.count fs k + 1 := by simp [Spec.count, hf]
+      have hget : all[i]? = vs[0]? := by rw [h, List.getElem?_drop]; simp
+      have hdrop : all.drop (i + 1) = vs.drop 1 := by rw [h, List.drop_drop]
+      cases vs with
+      | nil =>
+        have hnil : ([] : List Bytes) = all.drop (i + 1) := by rw [hdrop]; rfl
+        have := ih (i + 1) [] hnil
+        simp only [setAllLoop, hk, hf, if_true, Spec.rewrite, hget, hc]
+        simp only [List.getElem?_nil]
+        refine ⟨this.1, ?_⟩
+        rw [this.2]; congr 1; omega
+      | cons v vs' =>
+        have hcons : vs' = all.drop (i + 1) := by rw [hdrop]; rfl
+        have := ih (i + 1) vs' hcons
+        simp only [setAllLoop, hk, hf, if_true, Spec.rewrite, hget, hc]
+        simp only [List.getElem?_cons_zero]
+        refine ⟨by rw [this.1], ?_⟩
+        rw [this.2]; congr 1; omega
+    · have hf' : keq f.1 k = false := by simpa using hf
+      have hc : Spec.count (f :: fs) k = Spec.count fs k := by simp [Spec.count, hf']
+      have := ih i vs h
+      simp only [setAllLoop, hk, hf', Spec.rewrite, hc]
+      simp [this.1, this.2]
+
+private theorem setAll_eq (fs : Fields) (k : Bytes) (vs : List Bytes) : C35.setAll fs k vs = Spec.setAll fs k vs := by
+  have := setAllLoop_eq k vs fs 0 vs (by simp)
+  simp only [C35.setAll, Spec.setAll, this.1, this.2]
+  simp
+
+private theorem delItem_eq (fs : Fields) (k : Bytes) : C35.delItem fs k = Spec.del fs k := by
+  simp only [C35.delItem, Spec.del, contains_eq, Spec.remove, kconv_bne]
+  by_cases h : Spec.count fs k = 0 <;> simp [h]
+
+private theorem pyIndex_eq (n : Nat) (i : Int) : pyIndex n i = Spec.pos n i := by
+  simp only [pyIndex, Spec.pos]
+  by_cases h : i < 0
+  · have h0 : ¬ (0 ≤ i) := by omega
+    simp only [h, h0, if_true, if_false]
+    by_cases h2 : (n : Int) + i < 0 <;> simp only [h2, if_true, if_false] <;> omega
+  · have h0 : 0 ≤ i := by omega
+    simp only [h, h0, if_true, if_false]
+    by_cases h2 : i.toNat ≤ n <;> simp only [h2, if_true, if_false] <;> omega
+
+private theorem pos_le (n : Nat) (i : Int) : Spec.pos n i ≤ n := by
+  simp only [Spec.pos]
+  by_cases h0 : 0 ≤ i <;> simp only [h0, if_true, if_false] <;> omega
+
+private theorem insertNth_eq (e : Field) (m : Fields) : ∀ p, p ≤ m.length →
+    m.take p ++ e :: m.drop p = Spec.insertNth e p m := by
+  induction m with
+  | nil => intro p hp; cases p <;> simp [Spec.insertNth] at *
+  | cons x m ih =>
+    intro p hp
+    cases p with
+    | zero => simp [Spec.insertNth]
+    | succ p => simp [Spec.insertNth, ih p (by simpa using hp)]
+
+private theorem insert_eq (fs : Fields) (i : Int) (k v : Bytes) : C35.insert fs i k v = Spec.insertAt fs i (k, v) := by
+  simp only [C35.insert, Spec.insertAt, pyIndex_eq]
+  exact insertNth_eq _ _ _ (pos_le _ _)
+
+private theorem add_eq (fs : Fields) (k v : Bytes) : C35.add fs k v = fs ++ [(k, v)] := by
+  have h1 : ¬ ((fs.length : Int) < 0) := by omega
+  have h2 : ((fs.length : Int)).toNat ≤ fs.length := by omega
+  have : pyIndex fs.length (fs.length : Int) = fs.length := by
+    simp only [pyIndex, h1, h2, if_true, if_false]; omega
+  simp [C35.add, C35.insert, this]
+
+private theorem firsts_cons (e : Field) (m : Fields) :
+    Spec.firsts (e :: m) = e.1 :: Spec.firsts (m.filter (fun x => !keq x.1 e.1)) := by
+  rw [Spec.firsts]
+
+private theorem iterLoop_eq (fs : Fields) : ∀ seen : List Bytes,
+    iterLoop seen fs = Spec.firsts (fs.filter (fun f => !seen.contains (kconv f.1))) := by
+  induction fs with
+  | nil => intro seen; simp [iterLoop, Spec.firsts]
+  | cons f fs ih =>
+    intro seen
+    by_cases h : seen.contains (kconv f.1) = true
+    · rw [List.filter_cons]
+      simp only [iterLoop, h, if_true, ih, Bool.not_true, Bool.false_eq_true, if_false]
+    · have h' : seen.contains (kconv f.1) = false := by simpa using h
+      rw [List.filter_cons]
+      simp only [iterLoop, h', ih, Bool.false_eq_true, if_false, Bool.not_false, if_true, firsts_cons,
+        List.filter_filter]
+      congr 2
+      apply List.filter_congr
+      intro x _
+      have : (kconv x.1 == kconv f.1) = keq x.1 f.1 := rfl
+      simp only [List.contains_cons, this]
+      cases keq x.1 f.1 <;> simp
+
+private theorem iter_eq (fs : Fields) : C35.iter fs = Spec.firsts fs := by
+  have : fs.filter (fun _ => true) = fs := List.filter_eq_self.mpr (by simp)
+  simp [C35.iter, iterLoop_eq, this]
+
+private theorem len_loop (fs : Fields) : ∀ s : List Bytes,
+    (fs.foldl (fun s f => setAdd s (kconv f.1)) s).length = s.length + (iterLoop s fs).length := by
+  induction fs with
+  | nil => intro s; simp [iterLoop]
+  | cons f fs ih =>
+    intro s
+    by_cases h : s.contains (kconv f.1) = true
+    · have hs : setAdd s (kconv f.1) = s := by simp only [setAdd, h, if_true]
+      simp only [List.foldl_cons, iterLoop, h, if_true, hs]
+      exact ih s
+    · have h' : s.contains (kconv f.1) = false := by simpa using h
+      have hs : setAdd s (kconv f.1) = kconv f.1 :: s := by simp only [setAdd, h', Bool.false_eq_true, if_false]
+      simp only [List.foldl_cons, iterLoop, h', Bool.false_eq_true, if_false, hs]
+      rw [ih]; simp only [List.length_cons]; omega
+
+private theorem len_eq (fs : Fields) : C35.len fs = Spec.size fs := by
+  simp [C35.len, Spec.size, len_loop, ← iter_eq, C35.iter]
+
+private theorem join_flat (sep : Bytes) (xs : List Bytes) (h : xs ≠ []) :
+    joinWith sep xs ++ sep = xs.flatMap (fun x => x ++ sep) := by
+  induction xs with
+  | nil => exact absurd rfl h
+  | cons x xs ih =>
+    cases xs with
+    | nil => simp [joinWith]
+    | cons y ys =>
+      have := ih (by simp)
+      simp only [joinWith, List.flatMap_cons, List.append_assoc] at *
+      rw [this]
+
+private theorem toBytes_eq (fs : Fields) : C35.toBytes fs = Spec.serialise fs := by
+  cases fs with
+  | nil => rfl
+  | cons f fs =>
+    simp only [C35.toBytes, Spec.serialise, List.isEmpty_cons, Bool.false_eq_true, if_false]
+    rw [join_flat _ _ (by simp)]
+    simp [List.flatMap_map, fieldLine]
+
+private theorem mem_firsts (k : Bytes) : ∀ (n : Nat) (m : Fields), m.length ≤ n → k ∈ Spec.firsts m → ∃ v, (k, v) ∈ m := by
+  intro n
+  induction n with
+  | zero => intro m hm; cases m <;> simp [Spec.firsts] at *
+  | succ n ih =>
+    intro m hm hk
+    cases m with
+    | nil => simp [Spec.firsts] at hk
+    | cons e m =>
+      rw [firsts_cons] at hk
+      rcases List.mem_cons.mp hk with h | h
+      · exact ⟨e.2, by simp [h]⟩
+      · have hl : (m.filter (fun x => !keq x.1 e.1)).length ≤ n :=
+          Nat.le_trans (List.length_filter_le _ _) (by simpa using hm)
+        obtain ⟨v, hv⟩ := ih _ hl h
+        exact ⟨v, List.mem_cons_of_mem _ (List.mem_filter.mp hv).1⟩
+
+private theorem lookup_of_mem_firsts (m : Fields) (k : Bytes) (h : k ∈ Spec.firsts m) :
+    Spec.lookup m k = some (Spec.fold (Spec.getAll m k)) := by
+  obtain ⟨v, hv⟩ := mem_firsts k m.length m (Nat.le_refl _) h
+  have : v ∈ Spec.getAll m k := by
+    simp only [Spec.getAll, List.mem_map, List.mem_filter]
+    exact ⟨(k, v), ⟨hv, keq_refl k⟩, rfl⟩
+  simp only [Spec.lookup]
+  cases hg : Spec.getAll m k with
+  | nil => simp [hg] at this
+  | cons a as => rfl
+
+private theorem filterMap_total {α β : Type} (f : α → Option β) (g : α → β) (l : List α)
+    (h : ∀ a ∈ l, f a = some (g a)) : l.filterMap f = l.map g := by
+  induction l with
+  | nil => rfl
+  | cons a l ih =>
+    have ha := h a (by simp)
+    have := ih (fun b hb => h b (by simp [hb]))
+    simp [ha, this]
+
+private theorem items_eq (fs : Fields) : C35.items fs = Spec.items fs := by
+  simp only [C35.items, Spec.items, iter_eq]
+  apply filterMap_total
+  intro k hk
+  simp [getItem_eq, lookup_of_mem_firsts fs k hk]
+
+private theorem pop_eq (fs : Fields) (k : Bytes) :
+    C35.pop fs k = (match Spec.lookup fs k with | some v => some (Spec.remove fs k, v) | none => none) := by
+  simp only [C35.pop, getItem_eq, delItem_eq, Spec.del]
+  cases h : Spec.lookup fs k with
+  | none => rfl
+  | some v =>
+    have : Spec.count fs k ≠ 0 := by
+      intro e
+      have := (getAll_nil_iff fs k).mpr e
+      simp [Spec.lookup, this] at h
+    simp [this]
+
+private theorem popitem_eq (fs : Fields) : C35.popitem fs = Spec.popFirst fs := by
+  cases fs with
+  | nil => simp [C35.popitem, iter_eq, Spec.firsts, Spec.popFirst]
+  | cons e m =>
+    have hl := lookup_of_mem_firsts (e :: m) e.1 (by rw [firsts_cons]; simp)
+    have hc : Spec.count (e :: m) e.1 ≠ 0 := by simp [Spec.count, keq_refl]
+    simp only [C35.popitem, iter_eq, firsts_cons, getItem_eq, hl, delItem_eq, Spec.del, hc, if_false, Spec.popFirst]
+
+private theorem setdefault_eq (fs : Fields) (k d : Bytes) :
+    C35.setdefault fs k d = (match Spec.lookup fs k with | some v => (fs, v) | none => (Spec.setAll fs k [d], d)) := by
+  simp only [C35.setdefault, getItem_eq, C35.setItem, setAll_eq]
+  cases Spec.lookup fs k <;> rfl
+
+private theorem remove_length_lt (e : Field) (m : Fields) : (Spec.remove (e :: m) e.1).length < (e :: m).length := by
+  simp only [Spec.remove, List.filter_cons, keq_refl, Bool.not_true, Bool.false_eq_true, if_false, List.length_cons]
+  exact Nat.lt_succ_of_le (List.length_filter_le _ _)
+
+private theorem clearF_nil : ∀ (n : Nat) (fs : Fields), fs.length < n → clearF n fs = [] := by
+  intro n
+  induction n with
+  | zero => intro fs h; omega
+  | succ n ih =>
+    intro fs h
+    cases fs with
+    | nil => simp [clearF, popitem_eq, Spec.popFirst]
+    | cons e m =>
+      simp only [clearF, popitem_eq, Spec.popFirst]
+      apply ih
+      have := remove_length_lt e m
+      omega
+
+private theorem update_eq (ps : Fields) : ∀ fs : Fields,
+    C35.update fs ps = ps.foldl (fun s p => Spec.setAll s p.1 [p.2]) fs := by
+  induction ps with
+  | nil => intro fs; rfl
+  | cons p ps ih =>
+    intro fs
+    simp only [C35.update, List.foldl_cons, C35.setItem, setAll_eq] at *
+
+private theorem copy_id (fs : Fields) : C35.copy fs = fs := by
   induction fs with
   | nil => rfl
   | cons f fs ih => simp [copy]
+
+private theorem apply_eq (st : Store) (fs : Fields) (op : Op) : C35.apply st fs op = Spec.apply st fs op := by
+  cases op with
+  | getItem t k => simp only [C35.apply, Spec.apply, getItem_eq]; rfl
+  | get t k => simp only [C35.apply, Spec.apply, getItem_eq]
+  | getAll t k => simp only [C35.apply, Spec.apply, getAll_eq]
+  | contains t k => simp only [C35.apply, Spec.apply, contains_eq]
+  | setItem t k v => simp only [C35.apply, Spec.apply, C35.setItem, setAll_eq]
+  | setAll t k vs => simp only [C35.apply, Spec.apply, setAll_eq]
+  | delItem t k => simp only [C35.apply, Spec.apply, delItem_eq]; rfl
+  | add t k v => simp only [C35.apply, Spec.apply, add_eq]
+  | insert t i k v => simp only [C35.apply, Spec.apply, insert_eq]
+  | iter t => simp only [C35.apply, Spec.apply, iter_eq]
+  | len t => simp only [C35.apply, Spec.apply, len_eq]
+  | eq t u =>
+    simp only [C35.apply, Spec.apply, C35.eq]
+    cases st[u]? with
+    | none => rfl
+    | some g => by_cases h : fs = g <;> simp [h]
+  | copy t => simp only [C35.apply, Spec.apply, copy_id]
+  | itemsMulti t => simp only [C35.apply, Spec.apply, itemsMulti]
+  | items t => simp only [C35.apply, Spec.apply, items_eq]
+  | keys t m => cases m <;> simp [C35.apply, Spec.apply, C35.keys, items_eq, itemsMulti, Spec.items, Function.comp_def]
+  | values t m => cases m <;> simp [C35.apply, Spec.apply, C35.values, items_eq, itemsMulti, Spec.items, Function.comp_def]
+  | pop t k =>
+    simp only [C35.apply, Spec.apply, pop_eq]
+    cases Spec.lookup fs k <;> rfl
+  | popitem t => simp only [C35.apply, Spec.apply, popitem_eq]; rfl
+  | setdefault t k d =>
+    simp only [C35.apply, Spec.apply, setdefault_eq]
+    cases Spec.lookup fs k <;> rfl
+  | clear t => simp only [C35.apply, Spec.apply, C35.clear, clearF_nil _ _ (Nat.lt_succ_self _)]
+  | update t ps => simp only [C35.apply, Spec.apply, update_eq]
+  | toBytes t => simp only [C35.apply, Spec.apply, toBytes_eq]
+
+private theorem step_eq (st : Store) (op : Op) : C35.step st op = Spec.step st op := by
+  simp only [C35.step, Spec.step, apply_eq]; rfl
+
+/-- **Refinement.** Every operation sequence, run on any store of header objects, produces the same return values
+    and the same `fields` of every object after every step as the abstract case-insensitive ordered multimap. -/
+theorem run_refines (ops : List Op) : ∀ st : Store, C35.run st ops = Spec.run st ops := by
+  induction ops with
+  | nil => intro st; rfl
+  | cons op ops ih => intro st; simp only [C35.run, Spec.run, step_eq, ih]
+
+
+example : keq [0x53, 0x65, 0x74] [0x73, 0x45, 0x54] = true := by decide
+example : (C35.run [[([0x61], [0x31]), ([0x41], [0x32])]] [.getItem 0 [0x41], .delItem 0 [0x61], .len 0]).map (·.1)
+    = [.val [0x31, 0x2c, 0x20, 0x32], .none, .nat 0] := by decide
+
+/-! ### the multimap laws, stated on the model of the code -/
+
+private theorem getAll_keq (m : Fields) {k k' : Bytes} (h : keq k' k = true) : Spec.getAll m k' = Spec.getAll m k := by
+  have : asciiLower k' = asciiLower k := (keq_iff _ _).mp h
+  simp only [Spec.getAll, keq, this]
+
+private theorem getAll_append (a b : Fields) (k : Bytes) : Spec.getAll (a ++ b) k = Spec.getAll a k ++ Spec.getAll b k := by
+  simp [Spec.getAll]
+
+private theorem getAll_fresh (k : Bytes) (vs : List Bytes) : Spec.getAll (vs.map (fun v => (k, v))) k = vs := by
+  induction vs with
+  | nil => rfl
+  | cons v vs ih => simp only [Spec.getAll] at *; simp [keq_refl, ih]
+
+private theorem loop_getAll (k : Bytes) (fs : Fields) : ∀ vs : List Bytes,
+    Spec.getAll (setAllLoop (kconv k) fs vs).1 k ++ (setAllLoop (kconv k) fs vs).2 = vs := by
+  induction fs with
+  | nil => intro vs; simp [setAllLoop, Spec.getAll]
+  | cons f fs ih =>
+    intro vs
+    have hk : (kconv f.1 == kconv k) = keq f.1 k := rfl
+    by_cases hf : keq f.1 k = true
+    · cases vs with
+      | nil => simp only [setAllLoop, hk, hf, if_true]; exact ih []
+      | cons v vs' =>
+        have := ih vs'
+        simp only [setAllLoop, hk, hf, if_true]
+        simp only [Spec.getAll] at *
+        simp [hf, this]
+    · have hf' : keq f.1 k = false := by simpa using hf
+      have := ih vs
+      simp only [setAllLoop, hk, hf']
+      simp only [Spec.getAll] at *
+      simp [hf', this]
+
+/-- after `set_all(k, vs)`, `get_all` under any spelling of `k` returns exactly `vs` -/
+theorem getAll_setAll (fs : Fields) (k k' : Bytes) (vs : List Bytes) (h : keq k' k = true) :
+    C35.getAll (C35.setAll fs k vs) k' = vs := by
+  rw [getAll_eq, getAll_keq _ h]
+  simp only [C35.setAll, getAll_append, getAll_fresh]
+  exact loop_getAll k fs vs
+
+example : C35.getAll (C35.setAll [([0x61], [0x31]), ([0x62], [0x32]), ([0x41], [0x33])] [0x41] [[0x37], [0x38], [0x39]]) [0x61]
+    = [[0x37], [0x38], [0x39]] := by decide
+
+private theorem loop_untouched (k : Bytes) (fs : Fields) : ∀ vs : List Bytes,
+    (setAllLoop (kconv k) fs vs).1.filter (fun f => !keq f.1 k) = fs.filter (fun f => !keq f.1 k) := by
+  induction fs with
+  | nil => intro vs; simp [setAllLoop]
+  | cons f fs ih =>
+    intro vs
+    have hk : (kconv f.1 == kconv k) = keq f.1 k := rfl
+    by_cases hf : keq f.1 k = true
+    · cases vs with
+      | nil => simp only [setAllLoop, hk, hf, if_true]; rw [ih]; simp [hf]
+      | cons v vs' => simp only [setAllLoop, hk, hf, if_true]; simp [hf, ih]
+    · have hf' : keq f.1 k = false := by simpa using hf
+      simp only [setAllLoop, hk, hf']
+      simp [hf', ih]
+
+/-- `set_all(k, vs)` (hence `h[k] = v`) leaves the fields of every other name untouched: same spelling, same value,
+    same relative order -/
+theorem untouched_order_and_spelling (fs : Fields) (k : Bytes) (vs : List Bytes) :
+    (C35.setAll fs k vs).filter (fun f => !keq f.1 k) = fs.filter (fun f => !keq f.1 k) := by
+  simp only [C35.setAll, List.filter_append, loop_untouched]
+  have : ((setAllLoop (kconv k) fs vs).2.map (fun v => (k, v))).filter (fun f => !keq f.1 k) = [] := by
+    simp [List.filter_eq_nil_iff, keq_refl]
+  simp [this]
+
+private theorem getAll_remove_other (m : Fields) {k k' : Bytes} (h : keq k' k = false) :
+    Spec.getAll (m.filter (fun f => !keq f.1 k)) k' = Spec.getAll m k' := by
+  simp only [Spec.getAll, List.filter_filter]
+  congr 1
+  apply List.filter_congr
+  intro x _
+  cases h1 : keq x.1 k' with
+  | false => simp
+  | true =>
+    cases h2 : keq x.1 k with
+    | false => simp
+    | true =>
+      have : keq k' k = true := keq_trans (by rw [keq_symm]; exact h1) h2
+      rw [h] at this; cases this
+
+/-- `set_all(k, …)` does not change what any other name maps to -/
+theorem getAll_setAll_other (fs : Fields) (k k' : Bytes) (vs : List Bytes) (h : keq k' k = false) :
+    C35.getAll (C35.setAll fs k vs) k' = C35.getAll fs k' := by
+  rw [getAll_eq, getAll_eq, ← getAll_remove_other _ h, untouched_order_and_spelling, getAll_remove_other _ h]
+
+example : keq [0x62] [0x41] = false := by decide
+
+/-- `h[k] = v; h[k']` returns `v` for every spelling `k'` of `k` -/
+theorem getItem_setItem (fs : Fields) (k k' v : Bytes) (h : keq k' k = true) :
+    C35.getItem (C35.setItem fs k v) k' = some v := by
+  simp [C35.getItem, C35.setItem, getAll_setAll fs k k' [v] h, reduceValues, joinWith]
+
+/-- `del h[k]`: KeyError exactly when no field is named `k`; otherwise the result is the old field list with all
+    fields named `k` (and only those) removed -/
+theorem del_removes_all_only (fs : Fields) (k : Bytes) :
+    (C35.delItem fs k = none ↔ C35.getAll fs k = []) ∧
+    (∀ fs', C35.delItem fs k = some fs' →
+        fs' = fs.filter (fun f => !keq f.1 k) ∧ C35.getAll fs' k = [] ∧
+        ∀ k', keq k' k = false → C35.getAll fs' k' = C35.getAll fs k') := by
+  constructor
+  · rw [delItem_eq, getAll_eq, getAll_nil_iff, Spec.del]
+    by_cases h : Spec.count fs k = 0 <;> simp [h]
+  · intro fs' h
+    rw [delItem_eq, Spec.del] at h
+    by_cases hc : Spec.count fs k = 0
+    · simp [hc] at h
+    · simp only [hc, if_false, Option.some.injEq, Spec.remove] at h
+      subst h
+      refine ⟨rfl, ?_, ?_⟩
+      · rw [getAll_eq]; simp [Spec.getAll, List.filter_filter]
+      · intro k' hk'; rw [getAll_eq, getAll_eq, getAll_remove_other _ hk']
+
+example : C35.delItem [([0x61], [0x31]), ([0x62], [0x32]), ([0x41], [0x33])] [0x41] = some [([0x62], [0x32])] := by decide
+example : C35.delItem [([0x62], [0x32])] [0x41] = none := by decide
+
+private theorem take_ins_drop (e : Field) (m : Fields) : ∀ p, p ≤ m.length →
+    (m.take p ++ e :: m.drop p)[p]? = some e ∧ (m.take p ++ e :: m.drop p).eraseIdx p = m := by
+  induction m with
+  | nil => intro p hp; have : p = 0 := by simpa using hp
+           subst this; simp
+  | cons x m ih =>
+    intro p hp
+    cases p with
+    | zero => simp
+    | succ p =>
+      have := ih p (by simpa using hp)
+      simp [this.1, this.2]
+
+/-- `insert(i, k, v)` places exactly the new field at the position Python's slicing gives to `i`
+    and keeps every other field in place -/
+theorem insert_at (fs : Fields) (i : Int) (k v : Bytes) :
+    pyIndex fs.length i ≤ fs.length ∧
+    (C35.insert fs i k v)[pyIndex fs.length i]? = some (k, v) ∧
+    (C35.insert fs i k v).eraseIdx (pyIndex fs.length i) = fs ∧
+    (0 ≤ i → i ≤ fs.length → (pyIndex fs.length i : Int) = i) ∧
+    (i < 0 → -(fs.length : Int) ≤ i → (pyIndex fs.length i : Int) = fs.length + i) := by
+  have hle : pyIndex fs.length i ≤ fs.length := by rw [pyIndex_eq]; exact pos_le _ _
+  have := take_ins_drop (k, v) fs _ hle
+  refine ⟨hle, this.1, this.2, ?_, ?_⟩
+  · intro h0 h1
+    have hn : ¬ i < 0 := by omega
+    have h2 : i.toNat ≤ fs.length := by omega
+    simp only [pyIndex, hn, h2, if_true, if_false]; omega
+  · intro h0 h1
+    have h2 : ¬ ((fs.length : Int) + i < 0) := by omega
+    simp only [pyIndex, h0, h2, if_true, if_false]; omega
+
+/-- `add(k, v)` appends -/
+theorem add_at_end (fs : Fields) (k v : Bytes) : C35.add fs k v = fs ++ [(k, v)] := add_eq fs k v
+
+/-- `insert`/`add` of a field named `k` leaves all fields of other names untouched -/
+theorem untouched_order_and_spelling_insert (fs : Fields) (i : Int) (k v : Bytes) :
+    (C35.insert fs i k v).filter (fun f => !keq f.1 k) = fs.filter (fun f => !keq f.1 k) := by
+  simp only [C35.insert, List.filter_append, List.filter_cons, keq_refl, Bool.not_true, Bool.false_eq_true, if_false]
+  rw [← List.filter_append, List.take_append_drop]
+
+example : C35.insert [([0x61], [0x31]), ([0x62], [0x32])] (-1) [0x63] [0x33] = [([0x61], [0x31]), ([0x63], [0x33]), ([0x62], [0x32])] := by
+  decide
+
+/-! ### iteration and length -/
+
+private theorem firsts_induction (P : Fields → Prop) (hnil : P [])
+    (hcons : ∀ e m, P (m.filter (fun x => !keq x.1 e.1)) → P (e :: m)) : ∀ m, P m := by
+  have : ∀ (n : Nat) (m : Fields), m.length ≤ n → P m := by
+    intro n
+    induction n with
+    | zero => intro m hm; cases m with
+      | nil => exact hnil
+      | cons e m => simp at hm
+    | succ n ih =>
+      intro m hm
+      cases m with
+      | nil => exact hnil
+      | cons e m =>
+        apply hcons
+        apply ih
+        exact Nat.le_trans (List.length_filter_le _ _) (by simpa using hm)
+  intro m; exact this m.length m (Nat.le_refl _)
+
+private theorem mem_firsts' (m : Fields) (k : Bytes) (h : k ∈ Spec.firsts m) : ∃ v, (k, v) ∈ m :=
+  mem_firsts k m.length m (Nat.le_refl _) h
+
+private theorem firsts_nodup (m : Fields) : ((Spec.firsts m).map asciiLower).Nodup := by
+  induction m using firsts_induction with
+  | hnil => simp [Spec.firsts]
+  | hcons e m ih =>
+    rw [firsts_cons, List.map_cons, List.nodup_cons]
+    refine ⟨?_, ih⟩
+    intro hmem
+    obtain ⟨k, hk, hkk⟩ := List.mem_map.mp hmem
+    obtain ⟨v, hv⟩ := mem_firsts' _ k hk
+    have := (List.mem_filter.mp hv).2
+    have hkeq : keq k e.1 = true := (keq_iff _ _).mpr hkk
+    simp [hkeq] at this
+
+private theorem firsts_cover (m : Fields) : ∀ f ∈ m, asciiLower f.1 ∈ (Spec.firsts m).map asciiLower := by
+  induction m using firsts_induction with
+  | hnil => intro f hf; cases hf
+  | hcons e m ih =>
+    intro f hf
+    rw [firsts_cons, List.map_cons]
+    by_cases hk : keq f.1 e.1 = true
+    · rw [(keq_iff _ _).mp hk]; exact List.mem_cons_self
+    · rcases List.mem_cons.mp hf with h | h
+      · subst h; exact absurd (keq_refl _) hk
+      · apply List.mem_cons_of_mem
+        apply ih
+        exact List.mem_filter.mpr ⟨h, by simpa using hk⟩
+
+/-- `len(h)` is the number of distinct names modulo case: it equals the number of keys yielded by iteration,
+    those keys are pairwise different modulo case, every field's name is among them modulo case,
+    and every yielded key is the name of some field -/
+theorem len_eq_distinct (fs : Fields) :
+    C35.len fs = (C35.iter fs).length ∧
+    ((C35.iter fs).map asciiLower).Nodup ∧
+    (∀ f ∈ fs, asciiLower f.1 ∈ (C35.iter fs).map asciiLower) ∧
+    (∀ k ∈ C35.iter fs, ∃ v, (k, v) ∈ fs) := by
+  rw [len_eq, iter_eq]
+  exact ⟨rfl, firsts_nodup fs, firsts_cover fs, fun k hk => mem_firsts' fs k hk⟩
+
+example : C35.len [([0x61], [0x31]), ([0x62], [0x32]), ([0x41], [0x33])] = 2 := by decide
+
+private theorem firsts_find (m : Fields) : ∀ k ∈ Spec.firsts m, (m.find? (fun f => keq f.1 k)).map (·.1) = some k := by
+  induction m using firsts_induction with
+  | hnil => intro k hk; simp [Spec.firsts] at hk
+  | hcons e m ih =>
+    intro k hk
+    rw [firsts_cons] at hk
+    rcases List.mem_cons.mp hk with h | h
+    · subst h; simp [keq_refl]
+    · have hih := ih k h
+      obtain ⟨v, hv⟩ := mem_firsts' _ k h
+      have hne : keq k e.1 = false := by simpa using (List.mem_filter.mp hv).2
+      have hne' : keq e.1 k = false := by rw [keq_symm]; exact hne
+      rw [List.find?_cons]
+      simp only [hne']
+      rw [List.find?_filter] at hih
+      have hp : (fun a : Field => decide ((!keq a.1 e.1) = true ∧ keq a.1 k = true)) = (fun f : Field => keq f.1 k) := by
+        funext x
+        cases h1 : keq x.1 k with
+        | false => simp
+        | true =>
+          cases h2 : keq x.1 e.1 with
+          | false => simp
+          | true =>
+            have : keq k e.1 = true := keq_trans (by rw [keq_symm]; exact h1) h2
+            rw [hne] at this; cases this
+      rw [hp] at hih
+      exact hih
+
+private theorem firsts_sublist (m : Fields) : List.Sublist (Spec.firsts m) (m.map (·.1)) := by
+  induction m using firsts_induction with
+  | hnil => simp [Spec.firsts]
+  | hcons e m ih =>
+    rw [firsts_cons, List.map_cons]
+    exact List.Sublist.cons_cons _ (ih.trans ((List.filter_sublist).map _))
+
+/-- iteration yields, for every distinct name, the spelling of its FIRST field, in field order -/
+theorem iter_first_occurrence_spelling (fs : Fields) :
+    (∀ k ∈ C35.iter fs, (fs.find? (fun f => keq f.1 k)).map (·.1) = some k) ∧
+    List.Sublist (C35.iter fs) (fs.map (·.1)) := by
+  rw [iter_eq]; exact ⟨firsts_find fs, firsts_sublist fs⟩
+
+example : C35.iter [([0x61], [0x31]), ([0x62], [0x32]), ([0x41], [0x33])] = [[0x61], [0x62]] := by decide
+
+/-- `items()` never hits the KeyError branch of `self[key]`: one pair per iterated key -/
+theorem items_total (fs : Fields) : C35.items fs = (C35.iter fs).map (fun k => (k, reduceValues (C35.getAll fs k))) := by
+  rw [items_eq, iter_eq]; simp [Spec.items, getAll_eq, reduce_eq]
+
+/-- `clear()` terminates with an empty collection (the bound on `popitem` rounds in the model is never reached) -/
+theorem clear_empties (fs : Fields) : C35.clear fs = [] := clearF_nil _ _ (Nat.lt_succ_self _)
+
+/-- `__eq__` is equality of the field lists (spelling included) -/
+theorem eq_iff (a b : Fields) : C35.eq a b = true ↔ a = b := by simp [C35.eq]
+
+/-! ### copies and aliasing -/
+
+/-- `copy()` creates a new object with equal fields and leaves every existing object as it was -/
+theorem copy_creates_equal_object (st : Store) (t : Nat) (fs : Fields) (h : st[t]? = some fs) :
+    C35.step st (.copy t) = (st ++ [fs], .obj st.length) := by
+  have hset : st.set t fs = st := by
+    apply List.ext_getElem?
+    intro i
+    by_cases hi : t = i
+    · subst hi
+      by_cases hl : t < st.length
+      · simp [List.getElem?_set_self hl, h]
+      · simp [List.getElem?_eq_none (Nat.le_of_not_lt hl)] at h
+    · simp [List.getElem?_set_ne hi]
+  simp [C35.step, Op.target, h, C35.apply, copy_id, hset]
+
+private theorem step_length (st : Store) (op : Op) : st.length ≤ (C35.step st op).1.length := by
+  simp only [C35.step]
+  cases st[op.target]? with
+  | none => simp
+  | some fs =>
+    simp only
+    cases (C35.apply st fs op).2.2 <;> simp
+
+private theorem step_frame (st : Store) (op : Op) (j : Nat) (hj : op.target ≠ j) (hlt : j < st.length) :
+    (C35.step st op).1[j]? = st[j]? := by
+  simp only [C35.step]
+  cases st[op.target]? with
+  | none => rfl
+  | some fs =>
+    simp only
+    cases (C35.apply st fs op).2.2 with
+    | none => simp [List.getElem?_set_ne hj]
+    | some o =>
+      simp only
+      rw [List.getElem?_append_left (by simpa using hlt)]
+      simp [List.getElem?_set_ne hj]
+
+/-- operations on other objects (in particular on a copy, or on the original after copying) never change object `j`:
+    its fields are the same in every store of the trace -/
+theorem copy_independent (ops : List Op) : ∀ (st : Store) (j : Nat), j < st.length →
+    (∀ op ∈ ops, op.target ≠ j) → ∀ r ∈ C35.run st ops, r.2[j]? = st[j]? := by
+  induction ops with
+  | nil => intro st j _ _ r hr; simp [C35.run] at hr
+  | cons op ops ih =>
+    intro st j hlt hall r hr
+    have hop : op.target ≠ j := hall op (by simp)
+    have hf := step_frame st op j hop hlt
+    simp only [C35.run, List.mem_cons] at hr
+    rcases hr with h | h
+    · subst h; exact hf
+    · have := ih (C35.step st op).1 j (Nat.lt_of_lt_of_le hlt (step_length st op))
+        (fun o ho => hall o (by simp [ho])) r h
+      rw [this, hf]
+
+example : ((C35.run [[([0x61], [0x31])]] [.copy 0, .setItem 1 [0x41] [0x39], .delItem 0 [0x61]]).map (·.2))
+    = [[[([0x61], [0x31])], [([0x61], [0x31])]], [[([0x61], [0x31])], [([0x61], [0x39])]], [[], [([0x61], [0x39])]]] := by decide
+
+
+/-! ### HTTP/1 serialisation round trip -/
+
+open MitmVerif.C35.Spec (okName okValue RoundTrippable ValidFields validName validValue headOk lastOk spht tchar fieldByte)
+
+private theorem splitLF_line (l rest : Bytes) (h : ∀ c ∈ l, c ≠ 0x0a) :
+    splitLF (l ++ 0x0a :: rest) = l :: splitLF rest := by
+  induction l with
+  | nil => simp [splitLF]
+  | cons c l ih =>
+    have hc : c ≠ 0x0a := h c (by simp)
+    have := ih (fun d hd => h d (by simp [hd]))
+    simp [splitLF, hc, this]
+
+private theorem splitLF_block (ls : List Bytes) (h : ∀ l ∈ ls, ∀ c ∈ l, c ≠ 0x0a) :
+    splitLF (ls.flatMap (fun l => l ++ crlf)) = ls.map (fun l => l ++ [0x0d]) ++ [[]] := by
+  induction ls with
+  | nil => simp [splitLF]
+  | cons l ls ih =>
+    have hl : ∀ c ∈ l ++ [0x0d], c ≠ 0x0a := by
+      intro c hc
+      rcases List.mem_append.mp hc with h1 | h1
+      · exact h l (by simp) c h1
+      · have : c = 0x0d := by simpa using h1
+        subst this; decide
+    have e : (l :: ls).flatMap (fun l => l ++ crlf) = (l ++ [0x0d]) ++ 0x0a :: ls.flatMap (fun l => l ++ crlf) := by
+      simp [crlf]
+    rw [e, splitLF_line _ _ hl, ih (fun l' hl' => h l' (by simp [hl']))]
+    simp
+
+private theorem stripCR_snoc (l : Bytes) : stripCR (l ++ [0x0d]) = l := by
+  simp [stripCR]
+
+private theorem splitLines_block (ls : List Bytes) (h : ∀ l ∈ ls, ∀ c ∈ l, c ≠ 0x0a) :
+    splitLines (ls.flatMap (fun l => l ++ crlf)) = ls := by
+  rw [splitLines, splitLF_block ls h, List.dropLast_concat, List.map_map]
+  have : (stripCR ∘ fun l => l ++ [0x0d]) = id := by funext l; simp [stripCR_snoc]
+  rw [this, List.map_id]
+
+private theorem splitColon_name (n rest : Bytes) (h : ∀ c ∈ n, c ≠ 0x3a) :
+    splitColon (n ++ 0x3a :: rest) = some (n, rest) := by
+  induction n with
+  | nil => simp [splitColon]
+  | cons c n ih =>
+    have hc : c ≠ 0x3a := h c (by simp)
+    have := ih (fun d hd => h d (by simp [hd]))
+    simp [splitColon, hc, this]
+
+private theorem strip_value (v : Bytes) (h1 : headOk pyWs v = true) (h2 : lastOk pyWs v = true) :
+    strip (0x20 :: v) = v := by
+  have hsp : pyWs 0x20 = true := by decide
+  cases v with
+  | nil => simp [strip, hsp]
+  | cons c v =>
+    have hc : pyWs c = false := by simpa [headOk] using h1
+    have hrev : ((c :: v).reverse).dropWhile pyWs = (c :: v).reverse := by
+      cases hr : (c :: v).reverse with
+      | nil => simp at hr
+      | cons d r =>
+        have hlast : (c :: v).getLast? = some d := by
+          rw [List.getLast?_eq_head?_reverse, hr]; rfl
+        have hd : pyWs d = false := by simpa [lastOk, hlast] using h2
+        simp [hd]
+    simp only [strip, List.dropWhile_cons, hsp, if_true, hc, Bool.false_eq_true, if_false, hrev, List.reverse_reverse]
+
+private theorem okName_facts (n : Bytes) (h : okName n = true) :
+    (∃ c n', n = c :: n' ∧ (c = 0x20 || c = 0x09) = false) ∧ (∀ c ∈ n, c ≠ 0x3a) ∧ (∀ c ∈ n, c ≠ 0x0a) := by
+  simp only [okName, Bool.and_eq_true, List.all_eq_true] at h
+  obtain ⟨⟨h1, h2⟩, h3⟩ := h
+  refine ⟨?_, fun c hc => by have := h2 c hc; simp at this; exact this.1,
+          fun c hc => by have := h2 c hc; simp at this; exact this.2⟩
+  cases n with
+  | nil => simp at h1
+  | cons c n' =>
+    refine ⟨c, n', rfl, ?_⟩
+    simpa [headOk, spht] using h3
+
+private theorem okValue_facts (v : Bytes) (h : okValue v = true) :
+    (∀ c ∈ v, c ≠ 0x0a) ∧ headOk pyWs v = true ∧ lastOk pyWs v = true := by
+  simp only [okValue, Bool.and_eq_true, List.all_eq_true] at h
+  obtain ⟨⟨h1, h2⟩, h3⟩ := h
+  exact ⟨fun c hc => by have := h1 c hc; simpa using this, h2, h3⟩
+
+private theorem readLoop_fields (fs : Fields) (h : RoundTrippable fs) : ∀ acc : Fields,
+    readLoop acc (fs.map fieldLine) = .ok (acc.reverse ++ fs) := by
+  induction fs with
+  | nil => intro acc; simp [readLoop]
+  | cons f fs ih =>
+    intro acc
+    obtain ⟨hn, hv⟩ := h f (by simp)
+    obtain ⟨⟨c, n', hnc, hc⟩, hcolon, _⟩ := okName_facts _ hn
+    obtain ⟨_, hh, hl⟩ := okValue_facts _ hv
+    have hline : fieldLine f = c :: (n' ++ 0x3a :: 0x20 :: f.2) := by
+      simp [fieldLine, colonSp, hnc]
+    have hsplit : splitColon (c :: (n' ++ 0x3a :: 0x20 :: f.2)) = some (f.1, 0x20 :: f.2) := by
+      have := splitColon_name f.1 (0x20 :: f.2) hcolon
+      rw [hnc] at this ⊢
+      simpa using this
+    have hne : f.1.isEmpty = false := by rw [hnc]; rfl
+    have ih' := ih (fun g hg => h g (by simp [hg])) ((f.1, f.2) :: acc)
+    rw [List.map_cons, hline]
+    simp only [readLoop, hc, Bool.false_eq_true, if_false, hsplit, hne, strip_value _ hh hl]
+    rw [ih']
+    simp
+
+private theorem fieldLine_noLF (f : Field) (hn : okName f.1 = true) (hv : okValue f.2 = true) :
+    ∀ c ∈ fieldLine f, c ≠ 0x0a := by
+  obtain ⟨_, _, h1⟩ := okName_facts _ hn
+  obtain ⟨h2, _, _⟩ := okValue_facts _ hv
+  intro c hc
+  simp only [fieldLine, colonSp, List.mem_append, List.mem_cons, List.not_mem_nil, or_false] at hc
+  rcases hc with (hc | hc | hc) | hc
+  · exact h1 c hc
+  · subst hc; decide
+  · subst hc; decide
+  · exact h2 c hc
+
+/-- **Round trip (general form).** For every field list whose names are non-empty, contain neither `:` nor LF and
+    do not start with SP/HTAB, and whose values contain no LF and have no leading/trailing whitespace,
+    `_read_headers(lines(bytes(Headers(fs))))` returns exactly `fs`. -/
+theorem http1_roundtrip_general (fs : Fields) (h : RoundTrippable fs) :
+    readHeaders (splitLines (C35.toBytes fs)) = .ok fs := by
+  have hb : C35.toBytes fs = (fs.map fieldLine).flatMap (fun l => l ++ crlf) := by
+    rw [toBytes_eq]; simp [Spec.serialise, List.flatMap_map, fieldLine]
+  have hlines : ∀ l ∈ fs.map fieldLine, ∀ c ∈ l, c ≠ 0x0a := by
+    intro l hl
+    obtain ⟨f, hf, rfl⟩ := List.mem_map.mp hl
+    exact fieldLine_noLF f (h f hf).1 (h f hf).2
+  rw [hb, splitLines_block _ hlines, readHeaders, readLoop_fields fs h]
+  simp
+
+private theorem tchar_fin : ∀ n : Fin 256, tchar (UInt8.ofNat n.val) = true →
+    (UInt8.ofNat n.val != 0x3a && UInt8.ofNat n.val != 0x0a) = true ∧ spht (UInt8.ofNat n.val) = false := by
+  decide +kernel
+
+private theorem tchar_facts (c : UInt8) (h : tchar c = true) : (c != 0x3a && c != 0x0a) = true ∧ spht c = false := by
+  have := tchar_fin ⟨c.toNat, UInt8.toNat_lt c⟩
+  simp only [UInt8.ofNat_toNat] at this
+  exact this h
+
+private theorem fieldByte_fin : ∀ n : Fin 256, fieldByte (UInt8.ofNat n.val) = true →
+    (UInt8.ofNat n.val != 0x0a) = true ∧ (spht (UInt8.ofNat n.val) = false → pyWs (UInt8.ofNat n.val) = false) := by
+  decide +kernel
+
+private theorem fieldByte_facts (c : UInt8) (h : fieldByte c = true) :
+    (c != 0x0a) = true ∧ (spht c = false → pyWs c = false) := by
+  have := fieldByte_fin ⟨c.toNat, UInt8.toNat_lt c⟩
+  simp only [UInt8.ofNat_toNat] at this
+  exact this h
+
+private theorem head?_mem {l : Bytes} {c : UInt8} (h : l.head? = some c) : c ∈ l := by
+  cases l with
+  | nil => simp at h
+  | cons a l => simp at h; simp [h]
+
+private theorem getLast?_mem {l : Bytes} {c : UInt8} (h : l.getLast? = some c) : c ∈ l := by
+  obtain ⟨ys, rfl⟩ := List.getLast?_eq_some_iff.mp h
+  simp
+
+/-- RFC-valid fields (token names; VCHAR/obs-text/SP/HTAB values without leading/trailing SP/HTAB) satisfy the
+    hypotheses of the general round-trip theorem -/
+theorem validFields_roundTrippable (fs : Fields) (h : ValidFields fs) : RoundTrippable fs := by
+  intro f hf
+  obtain ⟨hn, hv⟩ := h f hf
+  simp only [validName, Bool.and_eq_true, List.all_eq_true] at hn
+  simp only [validValue, Bool.and_eq_true, List.all_eq_true] at hv
+  obtain ⟨hne, htc⟩ := hn
+  obtain ⟨⟨hfb, hho⟩, hlo⟩ := hv
+  constructor
+  · simp only [okName, Bool.and_eq_true, List.all_eq_true]
+    refine ⟨⟨hne, fun c hc => by have := (tchar_facts c (htc c hc)).1; simpa using this⟩, ?_⟩
+    simp only [headOk]
+    cases hh : f.1.head? with
+    | none => rfl
+    | some c => simp [(tchar_facts c (htc c (head?_mem hh))).2]
+  · simp only [okValue, Bool.and_eq_true, List.all_eq_true]
+    refine ⟨⟨fun c hc => by have := (fieldByte_facts c (hfb c hc)).1; simpa using this, ?_⟩, ?_⟩
+    · simp only [headOk] at hho ⊢
+      cases hh : f.2.head? with
+      | none => rfl
+      | some c =>
+        rw [hh] at hho
+        have : spht c = false := by simpa using hho
+        simp [(fieldByte_facts c (hfb c (head?_mem hh))).2 this]
+    · simp only [lastOk] at hlo ⊢
+      cases hh : f.2.getLast? with
+      | none => rfl
+      | some c =>
+        rw [hh] at hlo
+        have : spht c = false := by simpa using hlo
+        simp [(fieldByte_facts c (hfb c (getLast?_mem hh))).2 this]
+
+/-- **Round trip.** Serialising valid header fields as HTTP/1 and parsing them back yields the same fields. -/
+theorem http1_roundtrip (fs : Fields) (h : ValidFields fs) :
+    readHeaders (splitLines (C35.toBytes fs)) = .ok fs :=
+  http1_roundtrip_general fs (validFields_roundTrippable fs h)
+
+-- "Host: a b" / "x-1:" (empty value): valid, and the statement is not vacuous
+example : ValidFields [([0x48, 0x6f, 0x73, 0x74], [0x61, 0x20, 0x62]), ([0x78, 0x2d, 0x31], [])] := by unfold ValidFields; decide
+example : readHeaders (splitLines (C35.toBytes [([0x48], [0x61, 0x20, 0x62]), ([0x78], [])]))
+    = .ok [([0x48], [0x61, 0x20, 0x62]), ([0x78], [])] := by rfl
+-- the parser does reject / alter things outside the hypotheses
+example : readHeaders [[0x61]] = .error .value := by rfl
+example : readHeaders [[]] = .error .index := by rfl
+example : readHeaders [[0x20, 0x61]] = .error .value := by rfl
+example : readHeaders (splitLines (C35.toBytes [([0x61], [0x20, 0x31])])) = .ok [([0x61], [0x31])] := by rfl
+example : readHeaders [[0x61, 0x3a, 0x31], [0x20, 0x32]] = .ok [([0x61], [0x31, 0x0d, 0x0a, 0x20, 0x32])] := by rfl
 
 end MitmVerif.Props.C35
